@@ -137,10 +137,55 @@ static int keys_mode (void) {
 	return 0;
 }
 
+/* `nokeys`: the process holds every native TLS key before the library needs its first one (the lazily created key of the
+ * library's own per-thread slot can then not be created: nothing is stored, no destructor will run).  Threads whose
+ * functions simply return must still be joined with code 0, their writes visible, and every handle (and name copy)
+ * released exactly once: the allocator is back at its base line after the joins / after the detached ones ended. */
+static volatile int nk_done;
+static int nk_slot[16];
+static void *nk_worker (void *arg) {
+	int i = (int) (intptr_t) arg;
+	nk_slot[i] = 9000 + i;
+	__atomic_fetch_add (&nk_done, 1, __ATOMIC_SEQ_CST);
+	return NULL;
+}
+static int nokeys_mode (void) {
+	static pthread_key_t dummy[4096];
+	int nd = 0;
+	while (nd < 4096 && pthread_key_create (&dummy[nd], NULL) == 0) nd++;
+	if (nd == 4096) { printf ("ok (no key limit reached)\n"); return 0; }
+	long base = live ();
+	for (int round = 0; round < 3; round++) {
+		PUThread *th[12];
+		__atomic_store_n (&nk_done, 0, __ATOMIC_SEQ_CST);
+		for (int i = 0; i < 12; i++) {
+			const pchar *nm = (i % 3 == 1) ? "st" : (i % 3 == 2) ? "a-thread-name-longer-than-the-platform-limit" : NULL;
+			th[i] = p_uthread_create (nk_worker, (ppointer) (intptr_t) i, i < 6, nm);
+			if (!th[i]) { fprintf (stderr, "nokeys: create failed\n"); return 1; }
+			if (i >= 6) { p_uthread_unref (th[i]); th[i] = NULL; }
+		}
+		for (int i = 0; i < 6; i++) {
+			int code = p_uthread_join (th[i]);
+			if (code != 0) { fprintf (stderr, "nokeys: join code %d for a thread whose function returned\n", code); return 1; }
+			if (nk_slot[i] != 9000 + i) { fprintf (stderr, "nokeys: write of thread %d not visible after join\n", i); return 1; }
+			p_uthread_unref (th[i]);
+		}
+		for (int spin = 0; spin < 20000 && !(__atomic_load_n (&nk_done, __ATOMIC_SEQ_CST) == 12 && live () == base); spin++) usleep (500);
+		if (live () != base) {
+			fprintf (stderr, "nokeys: round %d: with every native TLS key taken before the library created its own, %ld block(s) of 12 finished threads (6 joined and released, 6 detached) stay allocated\n", round, live () - base);
+			return 1;
+		}
+	}
+	for (int i = 0; i < nd; i++) pthread_key_delete (dummy[i]);
+	printf ("ok\n");
+	return 0;
+}
+
 int main (int argc, char **argv) {
 	unsigned seed = argc > 1 ? (unsigned) atoi (argv[1]) : 1;
 	PMemVTable vt = { t_malloc, t_realloc, t_free };
 	p_libsys_init_full (&vt);
+	if (argc > 2 && argv[2][0] == 'n') return nokeys_mode ();
 	if (argc > 2 && argv[2][0] == 'k') { p_uthread_current (); return keys_mode (); }
 	p_uthread_current ();                                /* main's own handle + the library key's native key */
 	long base = live ();
